@@ -61,18 +61,41 @@ int _skinny_has_vec128(void)
     return detected;
 }
 
+#if SKINNY_VEC256_MATH && SKINNY_X86_CPUID && defined(__AVX2__)
+
+/* Read extended control register 0, which tells us which register
+   states the operating system saves and restores on a context switch */
+static uint32_t skinny_read_xcr0(void)
+{
+    uint32_t eax;
+    uint32_t edx;
+    __asm__ __volatile__ (".byte 0x0f, 0x01, 0xd0" /* xgetbv */
+                          : "=a"(eax), "=d"(edx) : "c"(0));
+    return eax;
+}
+
+#endif
+
 int _skinny_has_vec256(void)
 {
     int detected = 0;
 #if SKINNY_VEC256_MATH
 #if SKINNY_X86_CPUID && defined(__AVX2__)
-    /* 256-bit SIMD vectors are available on x86 if we have AVX2 */
+    /* 256-bit SIMD vectors are available on x86 if we have AVX2,
+       and the operating system preserves the YMM registers */
     uint32_t eax = 0;
     uint32_t ebx = 0;
     uint32_t ecx = 0;
     uint32_t edx = 0;
-    __cpuid_count(7, 0, eax, ebx, ecx, edx);
-    detected = (ebx & (1 << 5)) != 0;
+    __cpuid(0, eax, ebx, ecx, edx);
+    if (eax >= 7) {
+        __cpuid(1, eax, ebx, ecx, edx);
+        if ((ecx & (1 << 27)) != 0 && (ecx & (1 << 28)) != 0 &&
+                (skinny_read_xcr0() & 0x06) == 0x06) {
+            __cpuid_count(7, 0, eax, ebx, ecx, edx);
+            detected = (ebx & (1 << 5)) != 0;
+        }
+    }
 #endif
 #endif
     return detected;
